@@ -483,8 +483,40 @@ pub(crate) mod verif_mpmc {
         len as u32
     }
 
+    /// C18 (+ C08): `ChannelState::clear()` - what `Drop for shared::GenericReceiver` runs, beyond close(), when the last
+    /// receiver handle goes away - on a channel backed by FixedHeapBuf: discards every buffered value exactly once and never
+    /// reaches the allocator. Function-level (the shared handles themselves exhaust memory with a heap-backed buffer).
+    #[cfg(feature = "alloc")]
+    pub fn clear_noalloc<S: Src>(s: &mut S, p: u32) -> u32 {
+        #[cfg(not(kani))]
+        reset_tags();
+        let ch = GenericChannel::<NoopLock, Tag, crate::buffer::FixedHeapBuf<Tag>>::with_capacity(2);
+        let k = s.below(3);
+        if k > 0 { core::mem::forget(ch.try_send(Tag(1))); }
+        if k > 1 { core::mem::forget(ch.try_send(Tag(2))); }
+        if s.flag() { let _ = ch.close(); }
+        if (p & P18) != 0 { arm_alloc(); }
+        {
+            let mut g = ch.inner.lock();
+            let _ = g.clear();
+        }
+        if (p & P18) != 0 {
+            assert!(alloc_events() == 0, "C18 mpmc: discarding the buffered values (last shared receiver dropped) allocated or freed heap memory");
+            disarm_alloc();
+        }
+        if (p & (P08 | P11)) != 0 {
+            assert!(tag_drops(1) == (k > 0) as u8 && tag_drops(2) == (k > 1) as u8, "C08+C11 mpmc: clear() did not drop every buffered value exactly once");
+            assert!(ch.inner.lock().buffer.is_empty(), "C08+C11 mpmc: clear() left values in the buffer");
+        }
+        core::mem::forget(ch);
+        s.reached(k as u32);
+        k as u32
+    }
+
     #[no_mangle]
     pub fn fi_verif_replay_mpmc(name: &str, cfg: u32, p: u32, s: &mut ScriptSrc<'_>) -> bool {
+        #[cfg(feature = "alloc")]
+        if name == "mpmc_clear_noalloc" { clear_noalloc(s, p); return true; }
         let cap = (cfg & 3) as usize;
         match (name, cap) {
             #[cfg(feature = "alloc")]
@@ -807,6 +839,12 @@ pub(crate) mod verif_mpmc {
     #[cfg(kani)]
     mod proofs {
         use super::*;
+        #[kani::proof]
+        #[kani::unwind(4)]
+        #[kani::stub(alloc::alloc::alloc, crate::verif::common::stub_alloc)]
+        #[kani::stub(alloc::alloc::dealloc, crate::verif::common::stub_dealloc)]
+        #[kani::stub(alloc::alloc::realloc, crate::verif::common::stub_realloc)]
+        fn clear_noalloc_c18() { let k = clear_noalloc(&mut KaniSrc, P18 | P08); kani::cover!(k == 2, "W clear: two values buffered"); }
         #[kani::proof]
         #[kani::unwind(4)]
         fn zst_fixedheap_c0() { let _ = zst_capacity::<crate::buffer::FixedHeapBuf<ZVal>, _>(&mut KaniSrc, 0, 2, P09); }
